@@ -362,10 +362,19 @@ pub fn gen_tuples(rng: &mut Rng, preferred: Domain, n: usize) -> Vec<[f64; 4]> {
     let mut out: Vec<[f64; 4]> = Vec::with_capacity(n);
     for i in 0..n {
         if i > 0 && rng.chance(dup_rate) {
-            let j = rng.below(i);
+            // a duplicate of an earlier member (often the one just before), possibly at
+            // another epoch, possibly differing from it in the sign of a zero only
+            let j = if rng.chance(0.5) { i - 1 } else { rng.below(i) };
             let mut c = out[j];
-            if rng.chance(0.5) {
+            if rng.chance(0.4) {
                 c[3] = *rng.pick(&epochs);
+            }
+            if rng.chance(0.3) {
+                for v in c.iter_mut() {
+                    if *v == 0.0 {
+                        *v = -*v;
+                    }
+                }
             }
             out.push(c);
             continue;
@@ -377,6 +386,9 @@ pub fn gen_tuples(rng: &mut Rng, preferred: Domain, n: usize) -> Vec<[f64; 4]> {
         };
         let mut c = gen_tuple(rng, d);
         c[3] = *rng.pick(&epochs);
+        if rng.chance(0.04) {
+            c[rng.below(3)] = if rng.chance(0.5) { 0.0 } else { -0.0 };
+        }
         if rng.chance(poison_rate) {
             let which = rng.below(4);
             c[which] = *rng.pick(POISON);
